@@ -31,3 +31,7 @@ def run(ctx):
                   "the RPC handler passes through unchanged")
     ctx.ev.assume("racing edits: two goroutines call SaveEntity at once; the engine serialises them, the outcome must be "
                   "one of the two serialisations computed by the specification")
+
+
+def replay(ctx, path):
+    M.replay_witness(ctx, "C15", path)
